@@ -342,6 +342,9 @@ def main(tier, seed):
     from checks.common import Runner
 
     r = Runner("C18", tier, seed)
+    from checks import xhair
+
+    xhair.attach(r, ["comb_is_binomial", "comb_symmetric"], "C18")
     r.exact_compare = True
     r.run_specs(specs(tier))
     r.inexact_to_violations("value differs from the exact rational on Fraction input")
